@@ -115,6 +115,15 @@ def arg_for(name, b, rng):
     raise KeyError(name)
 
 
+class _Fixed:
+    """rng stand-in: arg_for then returns the base value itself"""
+    def random(self):
+        return 1.0
+
+    def choice(self, xs):
+        return xs[0]
+
+
 OPTIONAL = {'K', 'Stk', 'max_steps', 'e', 'f', 'num_fracs', 'get_dict', 'use_sf', 'use_sqrtcx', 'Cvt_eq_Cvs'}
 
 
@@ -329,6 +338,78 @@ def monitor(ctx, extended=False):
                 if live[0] == 'ok' and isinstance(live[1], (dict, list)):
                     held.append(live[1])
                 events.add((fn, sf, sq, json.dumps(kwargs, sort_keys=True)))
+        # a call that fails leaves no trace either: ok call, failing call (concentration at an end of its range: 0, the bed concentration, just below it),
+        # the same failing call again, the ok call again - each compared with a fresh interpreter (an exception is an outcome like any other)
+        F.use_sf, F.use_sqrtcx = True, True
+        conc_rows = [c for c in rows if not c['name'].startswith('_') and any(p in ('Cvs', 'Cvt', 'Cv') for p in c['key'])]
+        for c in conc_rows:
+            for b in pools(ctx.rng)[:3]:
+                def call_with(cv):
+                    args, kwargs = [], {}
+                    for p in c['key']:
+                        if p == 'GSD':
+                            args.append({0.15: b['d'] / 2.0, 0.5: b['d'], 0.85: b['d'] * 2.72})
+                        elif p in OPTIONAL:
+                            continue
+                        elif p in ('Cvs', 'Cvt', 'Cv'):
+                            args.append(cv)
+                        else:
+                            args.append(arg_for(p, b, _Fixed()))
+                    return f"{c['mod']}.{c['name']}", args, kwargs
+                script = [b['Cv'], 0.0, 0.0, b['Cv'], 0.6, 0.6, 0.59, 0.59, b['Cv']]
+                log = []
+                for cv in script:
+                    try:
+                        fn, args, kwargs = call_with(cv)
+                    except KeyError:
+                        break
+                    mod, name = fn.split('.')
+                    ctx.count('evaluations')
+                    log.append(f'{fn}{tuple(args)}')
+                    try:
+                        live = ('ok', getattr(mods[mod], name)(*[dict(a) if isinstance(a, dict) else a for a in args], **kwargs))
+                    except Exception as e:   # noqa
+                        live = ('exc', type(e).__name__)
+                    want = fresh.call(fn, args, kwargs, True, True)
+                    if live[0] != want[0] or (live[0] == 'ok' and not same(live[1], want[1])) or (live[0] == 'exc' and live[1] != want[1]):
+                        ctx.violation(f'{fn} returned {str(live)[:160]} after this history (it contains calls that fail); the same call in a fresh interpreter state returns {str(want)[:160]}',
+                                      {'history': log, 'use_sf': True, 'use_sqrtcx': True}, key='history-dependence')
+                        break
+                    events.add((fn, 'after-failed-call' if live[0] == 'exc' else 'ok-in-failing-script'))
+        # an argument that is the RESULT of an earlier call on the same slurry: the delivered-concentration functions first, then the spatial-concentration functions
+        # at exactly the in-situ concentration they derived (bit for bit), then the delivered ones again - and the same starting from the spatial side
+        F.use_sf, F.use_sqrtcx = True, True
+        for b in pools(ctx.rng):
+            a8 = [b['vls'], b['Dp'], b['d'], b['epsilon'], b['nu'], b['rhol'], b['rhos'], b['Cv']]
+            log = []
+
+            def step(fn, args, kwargs):
+                mod, name = fn.split('.')
+                ctx.count('evaluations')
+                log.append(f'{fn}{tuple(args)} {kwargs}')
+                try:
+                    live = ('ok', getattr(mods[mod], name)(*args, **kwargs))
+                except Exception as e:   # noqa
+                    live = ('exc', type(e).__name__)
+                want = fresh.call(fn, args, kwargs, True, True)
+                if live[0] != want[0] or (live[0] == 'ok' and not same(live[1], want[1])) or (live[0] == 'exc' and live[1] != want[1]):
+                    ctx.violation(f'{fn} returned {str(live)[:160]} after this history; the same call in a fresh interpreter state returns {str(want)[:160]}',
+                                  {'history': list(log), 'use_sf': True, 'use_sqrtcx': True}, key='history-dependence')
+                    return None
+                events.add((fn, 'derived-argument'))
+                return live
+            order = ctx.rng.choice(['delivered-first', 'spatial-first'])
+            ok = True
+            if order == 'spatial-first':
+                ok = step('framework.Cvs_Erhg', a8, {'get_dict': True}) is not None
+            r = step('framework.Cvt_Erhg', a8, {'get_dict': True}) if ok else None
+            c = step('framework.Cvs_from_Cvt', a8, {}) if r is not None else None
+            if c is not None and c[0] == 'ok' and isinstance(c[1], float) and c[1] == c[1]:
+                d8 = a8[:7] + [c[1]]
+                for fn, kw in (('framework.Cvs_Erhg', {'get_dict': True}), ('framework.Cvs_Erhg', {}), ('framework.Cvs_regime', {}), ('framework.Cvt_Erhg', {'get_dict': True}),
+                               ('framework.Cvt_regime', {}), ('framework.Cvs_Erhg', {'get_dict': True})):
+                    if step(fn, d8 if fn.startswith('framework.Cvs') else a8, kw) is None:
+                        break
         # whatever a caller does to a returned result - here: every container in it, nested ones included, is wrecked - the same call gives the same answer
         def wreck(x):
             if isinstance(x, dict):
